@@ -12,7 +12,7 @@ from vlib import core               # noqa: E402
 from props import cons_common as cc   # noqa: E402
 
 CONFIGS = [("eq3", [1, 1, 1, 1], 3, 3), ("eq0", [1, 1, 1, 1], 0, 3), ("w2", [2, 2, 1, 1], 2, 3)]
-GOALS = ["GoalSplitLockStale", "GoalCommitWithoutBlock", "GoalOneDecidedOthersBehind", "GoalValidVsLock"]
+GOALS = ["GoalSplitLockStale", "GoalCommitWithoutBlock", "GoalCommitNoProposal", "GoalOneDecidedOthersBehind", "GoalValidVsLock"]
 # goals reached in stages: TLC searches for stage k from the final state of stage k-1 (pasted as Init)
 STAGES = {"GoalSplitLockStale": ["StageOneLockedRound1", "GoalSplitLockStale"]}
 
